@@ -209,8 +209,54 @@ sys.exit(1 if bad else 0)
 '''
 
 
+NESTED_SCOPE = '''
+import sys
+import numpy as np
+import onnx_ir as ir
+from onnxscript import nn
+from onnxscript._internal import builder
+from onnxscript._internal.builder import GraphBuilder
+def val(name):
+    return ir.Value(name=name, shape=ir.Shape([1, 4]), type=ir.TensorType(ir.DataType.FLOAT))
+class Linear(nn.Module):
+    def __init__(self):
+        super().__init__()
+        self.weight = nn.Parameter([4, 4], data=ir.tensor(np.eye(4, dtype=np.float32)))
+    def forward(self, op, x):
+        return op.MatMul(x, self.weight)
+class Block(nn.Module):
+    def __init__(self):
+        super().__init__()
+        self.proj = Linear()
+    def forward(self, op, x, flag):
+        t = op.builder.subgraph(lambda op: self.proj(op, x), inputs=[], outputs=[val("p")], name="inner_then")
+        e = op.builder.subgraph(lambda op: op.Neg(x), inputs=[], outputs=[val("n")], name="inner_else")
+        return op.If(flag, then_branch=t, else_branch=e)
+class Model(nn.Module):
+    def __init__(self):
+        super().__init__("model")
+        self.block = Block()
+    def forward(self, op, x, c1, c2):
+        t = op.builder.subgraph(lambda op: self.block(op, x, c2), inputs=[], outputs=[val("b")], name="outer_then")
+        e = op.builder.subgraph(lambda op: op.Abs(x), inputs=[], outputs=[val("a")], name="outer_else")
+        return op.If(c1, then_branch=t, else_branch=e)
+m = Model()
+x = val("x")
+c1 = ir.Value(name="c1", shape=ir.Shape([]), type=ir.TensorType(ir.DataType.BOOL)); c2 = ir.Value(name="c2", shape=ir.Shape([]), type=ir.TensorType(ir.DataType.BOOL))
+g = ir.Graph([x, c1, c2], [], nodes=[], opset_imports={"": 18}, name="g")
+m(GraphBuilder(g).op, x, c1, c2)
+want = sorted("model." + k for k in m.state_dict())
+if sorted(g.initializers) != want:
+    print("module called two subgraph levels down: initializers", sorted(g.initializers), "but state_dict keys", sorted(m.state_dict()))
+    sys.exit(1)
+sys.exit(0)
+'''
+
+
 def replay(ob):
     n = ob["name"]
+    if "C18.builder.build_graph." in n:
+        return NESTED_SCOPE
     if "C18.builder.partition." in n:
         return PARTITION_HISTORY
     if "C18.nn.sequential." in n or "C18.nn.module_list." in n:
